@@ -334,3 +334,5 @@ ASSUMPTIONS = [
 ]
 OUTSIDE = ['sequences longer than the bound, more than 3 transforms', 'non-finite floats (nan % 360 is nan)',
            'floating-point rounding inside value % 360.', 'listeners that raise or re-enter the setters']
+
+TECHNIQUE = 'bounded symbolic execution with symbolic real rotations/vectors (z3 mixed integer/real arithmetic for % 360), validity checks, concolic cross-check'
